@@ -1000,6 +1000,8 @@ def run(info, out):
                     e[2] = e[2] * 2.0 ** -m
                 for d in c1["dims"]:
                     d["smooth"] = d["smooth"] * 2.0 ** -m
+            if len(set(d["smooth"] for d in c1["dims"])) > 1:
+                c1["flags"] = int(c1.get("flags", 0)) & ~1       # bit 0 = "the C++ call gets the single strength smooth[0]": only for equal strengths
             c1["rescaled"] = how
             cases.append(c1); nresc += 1
         suspicious = (not info["proof_ok"])
